@@ -25,6 +25,7 @@ def handle (args : List String) : String :=
   | ["files"] => "skip"
   | ["sets"] => "skip"
   | "schema" :: _ => "skip"
+  | "gen" :: _ => "skip"
   | "enc" :: _ :: r =>
     match rest r with
     | some [t, v] =>
